@@ -11,7 +11,7 @@ open YaegiVerif.Expected.C04 (share)
 /-! today's facts, field by field (so that `share` itself stays folded in the statements) -/
 theorem share_assignCopies : share.assignCopies = true := rfl
 theorem share_multiTemps : share.multiTemps = true := rfl
-theorem share_multiDefineTemps : share.multiDefineTemps = false := rfl
+theorem share_multiDefineTemps : share.multiDefineTemps = true := rfl
 theorem share_multiDefineRedeclAssigns : share.multiDefineRedeclAssigns = false := rfl
 theorem share_defineFresh : share.defineFresh = true := rfl
 theorem share_callCopiesArgs : share.callCopiesArgs = true := rfl
@@ -19,10 +19,11 @@ theorem share_rangeSnapshotsArray : share.rangeSnapshotsArray = true := rfl
 theorem share_closureClonesFrame : share.closureClonesFrame = true := rfl
 theorem share_callShortcut : share.callShortcut = true := rfl
 theorem share_litShortcut : share.litShortcut = true := rfl
-theorem share_shortcutGuardsSingle : share.shortcutGuardsSingle = false := rfl
+theorem share_shortcutGuardsSingle : share.shortcutGuardsSingle = true := rfl
 theorem share_structLitSetsSlot : share.structLitSetsSlot = true := rfl
 theorem share_arrayLitSets : share.arrayLitSets = true := rfl
-theorem share_lookup2OnlyIfValid : share.lookup2OnlyIfValid = true := rfl
+theorem share_structLitAssignSets : share.structLitAssignSets = true := rfl
+theorem share_lookup2OnlyIfValid : share.lookup2OnlyIfValid = false := rfl
 theorem share_appendArgsAreSlots : share.appendArgsAreSlots = true := rfl
 
 theorem readSlots_ext {st st' : St} (h : Ext st st') : ∀ (ss : List Slot) (vs : List Val),
@@ -100,12 +101,12 @@ theorem anyShortcutDefine_share : ∀ (rs : List RExp), anyShortcutDefine share 
   | [] => by simp [anyShortcutDefine, anyCompositeLit]
   | r :: rs => by simp [anyShortcutDefine, anyCompositeLit, shortcutDefine, share_litShortcut, anyShortcutDefine_share rs]
 
-/-- **two-phase multi-assignment**: without a shortcut source the mechanism's multi-assign is the specification's -/
-theorem multiY_spec (st : St) (ls : List LExp) (rs : List RExp) (h : multiHasShortcut ls rs = false) :
+/-- **two-phase multi-assignment**: the mechanism's multi-assign is the specification's (since commit 647e2cf of
+    the repository also when a right-hand side is a call or a composite literal) -/
+theorem multiY_spec (st : St) (ls : List LExp) (rs : List RExp) :
     multiY share st ls rs = Spec.multi st ls rs := by
   unfold multiY Spec.multi
-  rw [anyShortcutAssign_share, h]
-  simp only [share_shortcutGuardsSingle, share_multiTemps, Bool.not_false, Bool.and_false, Bool.false_eq_true, if_false, if_true, bind, Except.bind]
+  simp only [share_shortcutGuardsSingle, share_multiTemps, Bool.not_true, Bool.false_and, Bool.false_eq_true, if_false, if_true, bind, Except.bind]
   cases hd : resolveAll st ls with
   | error e => rfl
   | ok ds =>
